@@ -824,6 +824,13 @@ class SubtypeVisitor(TypeVisitor[bool]):
                 return True
             if len(left.items) != len(right.items):
                 return False
+            if (
+                find_unpack_in_list(left.items) is not None
+                and find_unpack_in_list(right.items) is None
+            ):
+                # A variadic tuple is never a subtype of a fixed-length one (an Unpack item
+                # would otherwise be accepted item-wise by a right item of type object).
+                return False
             if any(not self._is_subtype(l, r) for l, r in zip(left.items, right.items)):
                 return False
             if is_named_instance(right.partial_fallback, "builtins.tuple"):
